@@ -928,6 +928,10 @@ class RWMH(_AbstractSampler):
             setattr(self, key, kwargs[key])
             kwargs.pop(key)
 
+        # A sampler object can be re-used; don't keep the per-dimension factor of a
+        # previous autotuned run.
+        self._stepsize_non_scalar_part = 1.0
+
         # Autotuning -------------------------------------------------------------------
         if self.autotuning:
             assert self.learning_rate > 0.5 and self.learning_rate <= 1.0, (
